@@ -278,6 +278,8 @@ func checkC19(c *Ctx) {
 		})
 		c.Check(n == 1 && okGate, "C19.4", "RangeWhile: callback once per set bit", p.FuncPos(rw), "the callback is invoked at one site, only under isSet(byteIdx, bitIdx)", "callback sites: "+itoa(n)+", gated: "+boolStr(okGate))
 	}
+	c19StopsOnFalse(c, p.Method("security/crypto", "Bitfield", "RangeWhile"), "Bitfield.RangeWhile")
+	c19StopsOnFalse(c, p.Method("security/crypto", "Multi", "RangeWhile"), "Multi.RangeWhile")
 	// C19.5 bounds
 	if ct := p.Method("security/crypto", "Bitfield", "Contains"); ct != nil {
 		fl := NewFlow(p, ct)
@@ -410,7 +412,8 @@ func checkC19(c *Ctx) {
 			}
 		})
 		eachInstr(ad, func(in ssa.Instruction) { isExt(in) })
-		c.Check(ok && n > 0 && extOK, "C19.5", "Add: extends before setting", p.FuncPos(ad), "the bit is set only with byteIdx < len(data), after growing data by byteIdx+1-len(data) otherwise", "set reachable beyond the end of data")
+		c.Check(ok && n > 0 && extOK, "C19.5", "Add: extends before setting", p.FuncPos(ad), "the bit is set only with byteIdx < len(data), after growing data by byteIdx+1-len(data) fresh zero bytes otherwise (append(data, make([]byte, n)...))",
+			"the set operation is reachable without byteIdx < len(data) and without the recognised extension (data = append(data, make([]byte, byteIdx+1-len(data))...), which grows the set by zero bytes): either the index is out of range, or the new bytes are not known to be zero (bytes between len and cap that an adopted slice left behind become members)")
 	}
 }
 
@@ -770,4 +773,182 @@ func c19AccumulatorFresh(p *Prog, m *ssa.Function, field int) string {
 		}
 	}
 	return ""
+}
+
+// c19StopsOnFalse (C19.7): RangeWhile visits ids "until f returns false": once a call of the
+// callback returned false, no further call of the callback is reachable, in the method or in the
+// private helpers it is split into. A helper that swallows the stop (breaks out of its own loop and
+// reports "go on" to its caller) makes the walk resume further on: callers that stop at the first
+// hit (the first participant of a vote, an overlap test) then see a later element.
+// The search follows the stop edge through returns into the callers: a constant boolean result
+// selects the caller's branch.
+func c19StopsOnFalse(c *Ctx, root *ssa.Function, what string) {
+	p := c.P
+	if root == nil {
+		c.Unresolved("C19.7", what, "anchor missing")
+		return
+	}
+	scope := helperClosure(p, root, 2)
+	inScope := map[*ssa.Function]bool{}
+	for _, f := range scope {
+		inScope[f] = true
+	}
+	isCallback := func(in ssa.Instruction) bool {
+		call, ok := in.(*ssa.Call)
+		if !ok || call.Call.IsInvoke() || call.Call.StaticCallee() != nil {
+			return false
+		}
+		if _, isB := call.Call.Value.(*ssa.Builtin); isB {
+			return false
+		}
+		sig, ok := call.Call.Value.Type().Underlying().(*types.Signature)
+		if !ok || sig.Results().Len() != 1 || !types.Identical(sig.Results().At(0).Type(), types.Typ[types.Bool]) {
+			return false
+		}
+		_, isParam := call.Call.Value.(*ssa.Parameter)
+		return isParam
+	}
+	may := map[*ssa.Function]bool{}
+	for changed := true; changed; {
+		changed = false
+		for _, f := range scope {
+			if may[f] {
+				continue
+			}
+			eachInstr(f, func(in ssa.Instruction) {
+				if isCallback(in) {
+					may[f] = true
+				}
+				if ci, ok := in.(ssa.CallInstruction); ok {
+					if cal := ci.Common().StaticCallee(); cal != nil && inScope[cal] && may[cal] {
+						may[f] = true
+					}
+				}
+			})
+			if may[f] {
+				changed = true
+			}
+		}
+	}
+	type at struct {
+		b *ssa.BasicBlock
+		i int
+	}
+	var witness string
+	seen := map[at]bool{}
+	var explore func(fn *ssa.Function, b *ssa.BasicBlock, start int, depth int)
+	explore = func(fn *ssa.Function, b *ssa.BasicBlock, start int, depth int) {
+		if witness != "" || seen[at{b, start}] || depth > 6 {
+			return
+		}
+		seen[at{b, start}] = true
+		for i := start; i < len(b.Instrs); i++ {
+			in := b.Instrs[i]
+			if isCallback(in) {
+				witness = p.InstrPos(in)
+				return
+			}
+			if ci, ok := in.(ssa.CallInstruction); ok {
+				if cal := ci.Common().StaticCallee(); cal != nil && inScope[cal] && may[cal] {
+					witness = p.InstrPos(in) + " (calls " + shortName(cal) + ")"
+					return
+				}
+			}
+			if r, ok := in.(*ssa.Return); ok {
+				if fn == root {
+					return
+				}
+				// into the callers, along the branch the returned value selects
+				var val *bool
+				if len(r.Results) == 1 {
+					if isBoolConst(retValue(r, 0), true) {
+						t := true
+						val = &t
+					} else if isBoolConst(retValue(r, 0), false) {
+						f := false
+						val = &f
+					}
+				}
+				for _, ref := range callIndexOf(p).callers[fn] {
+					if !inScope[ref.In] {
+						continue
+					}
+					call, ok := ref.Instr.(*ssa.Call)
+					if !ok {
+						continue
+					}
+					cb := call.Block()
+					idx := 0
+					for j, x := range cb.Instrs {
+						if x == ssa.Instruction(call) {
+							idx = j + 1
+						}
+					}
+					// does the caller branch on the result at the end of this block?
+					if iff, isIf := cb.Instrs[len(cb.Instrs)-1].(*ssa.If); isIf && val != nil && len(cb.Succs) == 2 {
+						cond, truth := iff.Cond, true
+						for {
+							u, ok := cond.(*ssa.UnOp)
+							if !ok || u.Op != token.NOT {
+								break
+							}
+							cond, truth = u.X, !truth
+						}
+						if cond == ssa.Value(call) {
+							// the instructions between the call and the branch, then the selected successor
+							s := cb.Succs[1]
+							if *val == truth {
+								s = cb.Succs[0]
+							}
+							explore(ref.In, s, 0, depth+1)
+							continue
+						}
+					}
+					explore(ref.In, cb, idx, depth+1)
+				}
+				return
+			}
+		}
+		for _, s := range b.Succs {
+			explore(fn, s, 0, depth)
+		}
+	}
+	n := 0
+	for _, f := range scope {
+		eachInstr(f, func(in ssa.Instruction) {
+			if !isCallback(in) {
+				return
+			}
+			call := in.(*ssa.Call)
+			b := call.Block()
+			iff, isIf := b.Instrs[len(b.Instrs)-1].(*ssa.If)
+			if !isIf || len(b.Succs) != 2 {
+				return
+			}
+			cond, truth := iff.Cond, true
+			for {
+				u, ok := cond.(*ssa.UnOp)
+				if !ok || u.Op != token.NOT {
+					break
+				}
+				cond, truth = u.X, !truth
+			}
+			if cond != ssa.Value(call) {
+				return
+			}
+			n++
+			stop := b.Succs[0] // taken when the condition is true
+			if truth {
+				stop = b.Succs[1] // the callback's false result
+			}
+			explore(f, stop, 0, 0)
+		})
+	}
+	if n == 0 {
+		c.Unresolved("C19.7", what, "no branch on the callback's result found")
+		return
+	}
+	c.Check(witness == "", "C19.7", what+": no callback after the callback said stop", p.FuncPos(root),
+		"from the edge taken when f returns false no further call of f is reachable (through "+itoa(len(scope))+" function(s), following returned constants into the callers)",
+		"after f returned false the walk can go on and call f again at "+witness+": callers that stop at the first match see a later element")
 }
